@@ -25,69 +25,50 @@ Theorem C14_controller_converged_at_start :
       crit_at A std P (init_state A P e) e = true \/ limit_hit P 0.
 Proof. exact converged_start. Qed.
 
-(* controllers never report ERROR, count calls, and keep 0 <= ccount < level while running *)
+(* controllers never report ERROR, and keep 0 <= ccount < level, itcount >= 0 while running *)
 Theorem C14_controller_counters :
   forall (T : Type) (A : arith T) (std : list T -> T) (P : cparams T),
-    (1 <= c_level P)%Z ->
-    forall (e0 : eobs T) (st : cstate T),
-      running A std P e0 st -> (0 <= s_ccount st < c_level P)%Z /\ (0 <= s_itcount st)%Z.
-Proof. exact running_inv. Qed.
+    (forall (st : cstate T) (e : eobs T), snd (check A std P st e) <> ERROR) /\
+    ((1 <= c_level P)%Z ->
+     forall (e0 : eobs T) (st : cstate T),
+       running A std P e0 st -> (0 <= s_ccount st < c_level P)%Z /\ (0 <= s_itcount st)%Z).
+Proof. intros. split; [apply never_error | apply running_inv]. Qed.
 
-Theorem C14_controller_never_error :
+(* What "its own criterion" is, controller by controller (definitional unfoldings of [crit_at]);
+   for the gradient-norm controller the relative threshold stays tol_rel_gradnorm * (gradient norm at
+   start) throughout a run. *)
+Theorem C14_criterion_meaning :
   forall (T : Type) (A : arith T) (std : list T -> T) (P : cparams T) (st : cstate T) (e : eobs T),
-    snd (check A std P st e) <> ERROR.
-Proof. exact never_error. Qed.
-
-(* What "its own criterion" is, controller by controller (definitional unfoldings of [crit_at]). *)
-Theorem C14_criterion_gradnorm :
-  forall (T : Type) (A : arith T) (std : list T -> T) (P : cparams T) ta tr st e,
-    c_kind P = GradNorm ta tr ->
-    crit_at A std P st e =
-      (match ta with Some t => a_leb A (e_gradnorm e) t | None => false end) ||
-      (match tr with Some _ => a_leb A (e_gradnorm e) (s_tolrel st) | None => false end).
-Proof. intros. unfold crit_at, criterion. rewrite H. reflexivity. Qed.
-
-(* ... where the relative threshold is tol_rel_gradnorm * (gradient norm at start) throughout *)
-Theorem C14_criterion_gradnorm_threshold :
-  forall (T : Type) (A : arith T) (std : list T -> T) (P : cparams T) (e0 : eobs T) (st : cstate T),
-    running A std P e0 st -> s_tolrel st = s_tolrel (init_state A P e0).
-Proof. exact running_tolrel. Qed.
-
-Theorem C14_criterion_gradinf :
-  forall (T : Type) (A : arith T) (std : list T -> T) (P : cparams T) tol st e,
-    c_kind P = GradInf tol ->
-    crit_at A std P st e =
-      match tol with
-      | Some t => a_leb A (a_div A (e_gradinf e) (a_abs A (e_value e))) t
-      | None => false
-      end.
-Proof. intros. unfold crit_at, criterion. rewrite H. reflexivity. Qed.
-
-Theorem C14_criterion_deltaE :
-  forall (T : Type) (A : arith T) (std : list T -> T) (P : cparams T) tol st e,
-    c_kind P = DeltaE tol ->
-    crit_at A std P st e =
-      (0 <? s_itcount st + 1)%Z &&
-      a_ltb A (let scale := pymax A (a_abs A (s_eold st)) (a_abs A (e_value e)) in
-               if negb (a_eqb A scale (a_zero A))
-               then a_div A (a_abs A (a_sub A (s_eold st) (e_value e))) scale else a_zero A) tol.
-Proof. intros. unfold crit_at, criterion. rewrite H. reflexivity. Qed.
-
-Theorem C14_criterion_absdeltaE :
-  forall (T : Type) (A : arith T) (std : list T -> T) (P : cparams T) tol st e,
-    c_kind P = AbsDeltaE tol ->
-    crit_at A std P st e =
-      (0 <? s_itcount st + 1)%Z && a_ltb A (a_abs A (a_sub A (s_eold st) (e_value e))) tol.
-Proof. intros. unfold crit_at, criterion. rewrite H. reflexivity. Qed.
-
-Theorem C14_criterion_stochastic :
-  forall (T : Type) (A : arith T) (std : list T -> T) (P : cparams T) tol memlen st e,
-    c_kind P = Stoch tol memlen ->
-    crit_at A std P st e =
-      (0 <? s_itcount st + 1)%Z &&
-      a_ltb A (std (let mem := s_memory st ++ [e_value e] in
-                    if Nat.ltb memlen (length mem) then tl mem else mem)) tol.
-Proof. intros. unfold crit_at, criterion. rewrite H. reflexivity. Qed.
+    (forall ta tr, c_kind P = GradNorm ta tr ->
+       crit_at A std P st e =
+         (match ta with Some t => a_leb A (e_gradnorm e) t | None => false end) ||
+         (match tr with Some _ => a_leb A (e_gradnorm e) (s_tolrel st) | None => false end)) /\
+    (forall e0, running A std P e0 st -> s_tolrel st = s_tolrel (init_state A P e0)) /\
+    (forall tol, c_kind P = GradInf tol ->
+       crit_at A std P st e =
+         match tol with
+         | Some t => a_leb A (a_div A (e_gradinf e) (a_abs A (e_value e))) t
+         | None => false
+         end) /\
+    (forall tol, c_kind P = DeltaE tol ->
+       crit_at A std P st e =
+         (0 <? s_itcount st + 1)%Z &&
+         a_ltb A (let scale := pymax A (a_abs A (s_eold st)) (a_abs A (e_value e)) in
+                  if negb (a_eqb A scale (a_zero A))
+                  then a_div A (a_abs A (a_sub A (s_eold st) (e_value e))) scale else a_zero A) tol) /\
+    (forall tol, c_kind P = AbsDeltaE tol ->
+       crit_at A std P st e =
+         (0 <? s_itcount st + 1)%Z && a_ltb A (a_abs A (a_sub A (s_eold st) (e_value e))) tol) /\
+    (forall tol memlen, c_kind P = Stoch tol memlen ->
+       crit_at A std P st e =
+         (0 <? s_itcount st + 1)%Z &&
+         a_ltb A (std (let mem := s_memory st ++ [e_value e] in
+                       if Nat.ltb memlen (length mem) then tl mem else mem)) tol).
+Proof.
+  intros. unfold crit_at, criterion.
+  repeat split; intros; try (rewrite H; reflexivity).
+  eapply running_tolrel. eassumption.
+Qed.
 
 (* ConjugateGradient.__call__, no arithmetic laws, every operator / preconditioner / inner product
    (arbitrary functions), every controller (arbitrary state machine), every nreset, every fuel:
@@ -193,14 +174,11 @@ Proof.
 Qed.
 
 (* invalid modes are refused; the advertised capability is "own modes and their inverses" *)
-Theorem C14_inversion_invalid_refused :
-  forallb (fun c => forallb (fun m => match ie c m with IeRefuse => true | _ => false end)
-                            [0; 3; 5; 6; 7]) (seq 0 16) = true.
-Proof. exact ie_invalid. Qed.
-
 Theorem C14_inversion_capability :
+  forallb (fun c => forallb (fun m => match ie c m with IeRefuse => true | _ => false end)
+                            [0; 3; 5; 6; 7]) (seq 0 16) = true /\
   forallb (fun c => Nat.eqb (nth c t_addInverse 0) (Nat.lor c (flip_inv_cap c))) (seq 0 16) = true.
-Proof. exact addInverse_ok. Qed.
+Proof. split; [exact ie_invalid | exact addInverse_ok]. Qed.
 
 (* Non-vacuity: a 2x2 IEEE run (A = diag(2,4), b = (2,4), x0 = 0, gradient-norm controller) that
    returns CONVERGED through controller.check after two updates. *)
